@@ -217,7 +217,9 @@ def run_scenarios(pid, scenarios, seed, gh_exe, extra_builds=()):
                 violations.append({"replay": path, "what": "harness died (rc %s) executing %s" %
                                    (crash.get("rc"), json.dumps(note.get("call")))})
             else:
-                if w["orphan_transitions"]:
+                # transitions leaving a state that was only reached through a failed
+                # transition cannot be executed; without any failure this is a tooling fault
+                if w["orphan_transitions"] and not w["failures"]:
                     raise vf.Infra("walk of %s left %d transitions unexecuted" % (scn.name, w["orphan_transitions"]))
                 for p, note in zip(w["replays"], w["fail_notes"]):
                     violations.append({"replay": p, "what": note[:300]})
